@@ -443,7 +443,26 @@ func (r *rewriter) applyTouches(f *ast.File) {
 	})
 }
 
+// constToVar implements R11: `const kPrefixHashStep = <expr>` becomes `var kPrefixHashStep int64 = <expr>`
+// (every use in the package is int64-compatible), so that the scaled tier of C08 can shrink the
+// comparison block without a second build.
+func (r *rewriter) constToVar(f *ast.File) {
+	for _, d := range f.Decls {
+		gd, ok := d.(*ast.GenDecl)
+		if !ok || gd.Tok != token.CONST || len(gd.Specs) != 1 {
+			continue
+		}
+		vsp := gd.Specs[0].(*ast.ValueSpec)
+		if len(vsp.Names) == 1 && vsp.Names[0].Name == "kPrefixHashStep" && vsp.Type == nil {
+			gd.Tok = token.VAR
+			vsp.Type = id("int64")
+			r.stats["const2var"]++
+		}
+	}
+}
+
 func (r *rewriter) file(f *ast.File) {
+	r.constToVar(f)
 	// R9 first (uses type info of the original nodes)
 	r.encl = map[*ast.GoStmt]string{}
 	for _, d := range f.Decls {
@@ -644,6 +663,9 @@ func Generate(repo, verif, out string) (string, map[string]int, error) {
 			return "", nil, err
 		}
 		replace[src] = dst
+	}
+	if total["const2var"] != 1 {
+		errs = append(errs, "const kPrefixHashStep not found in the expected form (rule R11)")
 	}
 	if total["listenfn"] != 1 {
 		errs = append(errs, "listenForTunnel() not found in the expected form (rule R13)")
